@@ -4,6 +4,7 @@ import (
 	"context"
 	"encoding/json"
 	"fmt"
+	"math/rand"
 	"os"
 	"sort"
 	"strings"
@@ -308,7 +309,10 @@ func (r *foRun) compareSnap(where string, want foSnapJ) {
 	}
 }
 
-// exec runs the schedule in lockstep; on the first drift it stops steering and drains.
+// exec runs the schedule in lockstep.  After the first drift the comparison stops, but the schedule keeps being
+// imposed as a pure sequence of scheduling choices ("start p", "release p with this outcome", "tick", ...): steps whose
+// process is not parked are skipped.  On correct code this never happens; on changed code it lands the remaining
+// interleaving on whatever the code does now, and the monitors judge the recorded trace.
 func (r *foRun) exec(b []foStepJ) {
 	r.t0 = time.Now()
 
@@ -316,6 +320,8 @@ func (r *foRun) exec(b []foStepJ) {
 		r.prepare(b[0].St)
 		b = b[1:]
 	}
+
+	drifted := false
 
 	for i, m := range macros(b) {
 		time.Sleep(Eps)
@@ -348,15 +354,24 @@ func (r *foRun) exec(b []foStepJ) {
 		default:
 			a := r.s.parkedAt(f.P)
 			if a == nil || a.kind != gateOfPc(f.Pcb) {
-				r.driftf("%s: process not parked at %s (is at %v)", where, gateOfPc(f.Pcb), a)
+				if !drifted {
+					r.driftf("%s: process not parked at %s (is at %v)", where, gateOfPc(f.Pcb), a)
+					drifted = true
+				}
 
-				return
+				if a == nil {
+					continue
+				}
 			}
 
 			r.s.release(f.P, gcmd{fault: f.Out == "beerr" || f.Out == "fault", ok: f.Out != "fail", ttl: f.Arg})
 		}
 
 		synctest.Wait()
+
+		if drifted {
+			continue
+		}
 
 		if f.P != "" {
 			// Where is the process now?
@@ -393,7 +408,7 @@ func (r *foRun) exec(b []foStepJ) {
 		r.compareSnap(where, l.St)
 
 		if len(r.drift) > 0 {
-			return
+			drifted = true
 		}
 	}
 }
@@ -588,4 +603,249 @@ func TestFoReplay(t *testing.T) {
 	}
 
 	res.Extra["drift"] = driftN
+}
+
+// runFoWalk drives one Failover instance by a seeded random walk over the code's own gate tree: at every step it either
+// starts another Get, releases one parked goroutine (with a random builder outcome / injected fault within the budgets of
+// the configuration), advances the virtual clock or performs an external backend operation.  Goroutines about to LEAVE a
+// builder are released reluctantly, so that builds stay in flight while other callers arrive.  No model is followed:
+// the recorded trace is judged by the TLC monitors.
+func runFoWalk(t *testing.T, cfg FoCfg, wi int, seed int64, maxFaults, maxFails, maxNow int, envOps bool) (out foOut) {
+	out = foOut{Cfg: cfg, B: wi}
+	rng := rand.New(rand.NewSource(seed)) //nolint:gosec
+
+	km, err := NewKeyMap(seed, false, nil)
+	mustNoErr(err, "keymap")
+
+	for i, k := range cfg.Keys {
+		real := []byte(fmt.Sprintf("key-%02d-%04x", i, (seed*7919+int64(i)*104729)&0xffff))
+		km.ByModel[k] = real
+		km.ByReal[string(real)] = k
+	}
+
+	s := newSched(km, cfg.unit(), cfg.Keys)
+	s.steer = true
+	stat := NewStatRec()
+	r := &foRun{cfg: cfg, s: s, stat: stat, km: km, u: cfg.unit(), results: map[string]*foResJ{},
+		cells: map[string]int{}, ctxs: map[string]context.Context{}, cancels: map[string]context.CancelFunc{}}
+	r.fo = newFo(cfg, s, stat, func() time.Time { return r.t0 })
+
+	defer func() {
+		if p := recover(); p != nil {
+			out.Panic = fmt.Sprint(p)
+			s.rec(Event{Ev: "panic", Note: out.Panic})
+			out.Events = s.events
+		}
+	}()
+
+	synctest.Test(t, func(t *testing.T) {
+		r.t0 = time.Now()
+
+		init := foSnapJ{}
+		for k, e := range cfg.InitBe {
+			if e != nil {
+				init.Be = append(init.Be, foEntJ{K: k, V: e.V, E: e.E})
+			}
+		}
+
+		for k, e := range cfg.InitErrs {
+			if e != nil {
+				init.Errs = append(init.Errs, foEntJ{K: k, V: e.V, E: e.E})
+			}
+		}
+
+		r.prepare(init)
+
+		pending := append([]string(nil), cfg.Procs...)
+		rng.Shuffle(len(pending), func(i, j int) { pending[i], pending[j] = pending[j], pending[i] })
+
+		faults, fails, now, xw := 0, 0, 0, 0
+
+		for step := 0; step < 80; step++ {
+			time.Sleep(Eps)
+
+			parked := s.anyParked()
+			sort.Strings(parked)
+
+			if len(pending) == 0 && len(parked) == 0 {
+				break
+			}
+
+			// Candidates, weighted.
+			type cand struct {
+				kind string
+				p    string
+				w    int
+			}
+
+			var cs []cand
+
+			if len(pending) > 0 {
+				cs = append(cs, cand{"start", pending[0], 3})
+			}
+
+			for _, p := range parked {
+				w := 4
+				if a := s.parkedAt(p); a != nil && a.kind == "bend" {
+					w = 1
+				}
+
+				cs = append(cs, cand{"release", p, w})
+			}
+
+			if now < maxNow {
+				cs = append(cs, cand{"tick", "", 2})
+			}
+
+			if envOps {
+				cs = append(cs, cand{"ext", "", 1})
+			}
+
+			tot := 0
+			for _, c := range cs {
+				tot += c.w
+			}
+
+			x := rng.Intn(tot)
+
+			var ch cand
+
+			for _, c := range cs {
+				if x < c.w {
+					ch = c
+
+					break
+				}
+
+				x -= c.w
+			}
+
+			switch ch.kind {
+			case "start":
+				pending = pending[1:]
+				r.startGet(ch.p)
+			case "release":
+				a := s.parkedAt(ch.p)
+				c := gcmd{ok: true}
+
+				switch a.kind {
+				case "bend":
+					if fails < maxFails && rng.Intn(3) == 0 {
+						c.ok = false
+						fails++
+					}
+
+					c.ttl = []int{0, 0, 1, 3}[rng.Intn(4)]
+				case "beRead", "beWrite":
+					if faults < maxFaults && rng.Intn(5) == 0 {
+						c.fault = true
+						faults++
+					}
+				}
+
+				s.release(ch.p, c)
+			case "tick":
+				now++
+
+				time.Sleep(r.u)
+				s.rec(Event{Ev: "tick"})
+			case "ext":
+				k := cfg.Keys[rng.Intn(len(cfg.Keys))]
+
+				switch rng.Intn(3) {
+				case 0:
+					r.fo.Backend().ExpireAll(context.Background())
+					s.rec(Event{Ev: "extexpire"})
+				case 1:
+					_ = r.fo.Backend().Delete(context.Background(), km.ByModel[k])
+					s.rec(Event{Ev: "extdelete", K: k})
+				default:
+					xw++
+					v := fmt.Sprintf("%s#x%d", k, xw)
+					_ = r.fo.Backend().Write(context.Background(), km.ByModel[k], v)
+					s.rec(Event{Ev: "extwrite", K: k, V: v})
+				}
+			}
+
+			synctest.Wait()
+		}
+
+		r.drain()
+		synctest.Wait()
+
+		if cfg.StatOn {
+			s.rec(Event{Ev: "metric", C: "build", N: stat.Total(cache.MetricBuild, foName)})
+			s.rec(Event{Ev: "metric", C: "failed", N: stat.Total(cache.MetricFailed, foName)})
+			s.rec(Event{Ev: "metric", C: "refreshed", N: stat.Total(cache.MetricRefreshed, foName)})
+		}
+
+		s.rec(Event{Ev: "metric", C: "be_reads", N: stat.Total(cache.MetricHit, "be") +
+			stat.Total(cache.MetricMiss, "be") + stat.Total(cache.MetricExpired, "be")})
+		s.rec(Event{Ev: "metric", C: "be_write", N: stat.Total(cache.MetricWrite, "be")})
+
+		q := Event{Ev: "quiesce", N: r.fo.KeyLocks()}
+		for _, p := range cfg.Procs {
+			if _, started := r.cancels[p]; started && !r.result(p).Done {
+				q.Note += "blocked:" + p + ";"
+			}
+		}
+
+		if ps := s.anyParked(); len(ps) > 0 {
+			q.Note += fmt.Sprintf("parked:%v;", ps)
+		}
+
+		s.rec(q)
+
+		if q.Note == "" {
+			r.followUp()
+		}
+
+		for _, c := range r.cancels {
+			c()
+		}
+	})
+
+	out.Events = s.events
+
+	return out
+}
+
+// TestFoWalk: VERIF_CFG (FoCfg + budgets), VERIF_N, VERIF_OUT, VERIF_TRACE_OUT, VERIF_SEED.
+func TestFoWalk(t *testing.T) {
+	cfgp := os.Getenv("VERIF_CFG")
+	if cfgp == "" || os.Getenv("VERIF_WALK") == "" {
+		t.Skip("VERIF_WALK not set")
+	}
+
+	var cfg FoCfg
+	mustNoErr(readJSON(cfgp, &cfg), "read cfg")
+
+	var bud struct {
+		MaxFaults int  `json:"MaxFaults"`
+		MaxFails  int  `json:"MaxFails"`
+		MaxNow    int  `json:"MaxNow"`
+		EnvOps    bool `json:"EnvOps"`
+	}
+
+	mustNoErr(readJSON(cfgp, &bud), "read budgets")
+
+	seed := envInt("VERIF_SEED", 1)
+	n := int(envInt("VERIF_N", 50))
+	res := Result{Extra: map[string]interface{}{}}
+
+	defer func() { mustNoErr(writeJSON(os.Getenv("VERIF_OUT"), res), "write result") }()
+
+	traceOut, err := os.Create(os.Getenv("VERIF_TRACE_OUT"))
+	mustNoErr(err, "trace out")
+
+	defer traceOut.Close()
+
+	for wi := 0; wi < n; wi++ {
+		out := runFoWalk(t, cfg, wi, seed*100003+int64(wi), bud.MaxFaults, bud.MaxFails, bud.MaxNow, bud.EnvOps)
+		res.Evaluations++
+		res.Steps += len(out.Events)
+
+		line, _ := json.Marshal(out)
+		_, _ = traceOut.Write(append(line, '\n'))
+	}
 }
